@@ -199,10 +199,11 @@ Definition emit (d: dir) (r: option (slot * winner)) (e: kv) : kv :=
 (* ---- what ends up applied to the value when the field is compiled ----
    A `use_annotations`/generic strategy (WAnn) re-enters the registry for the type named by
    the annotation of its serialize/deserialize method (no annotation: Any, key `anyk`).
-   On re-entry the spec keeps its annotated_type (`stale`: [An] for an Annotated alias, []
-   otherwise) and drops the field strategy if that was the winner.  Result: the markers of
-   the callables applied, in resolution order, and what happens to the innermost value
-   (0 = built-in rendering, 1 = untouched); None = the compilation does not terminate. *)
+   `stale` = the keys the spec still carries on re-entry besides the new type: [] since /repo ed8922a
+   (annotated_type=None on re-entry; before that fix it was [An] for an Annotated alias).  The field strategy is
+   dropped on re-entry if that was the winner.  Result: the markers of the callables applied, in resolution order, and
+   what happens to the innermost value (0 = built-in rendering, 1 = untouched); None = the compilation does not
+   terminate. *)
 Definition marker_of (d: dir) (v: sval) : nat :=
   match v with VStrat _ _ s e => match d with Ser => s | De => e end | _ => 0 end.
 
